@@ -105,7 +105,8 @@ def add_constants(namespace, registry):
 
 
 def _split_prefix(symbol_str, unit_symbol_lut):
-    possible_prefix = symbol_str[0]
+    # a slice, not an index: the symbol name may be empty (Symbol(''))
+    possible_prefix = symbol_str[:1]
 
     if symbol_str[:2] == "da":
         possible_prefix = "da"
